@@ -12,9 +12,11 @@ import (
 	"crypto/ecdsa"
 	"encoding/hex"
 	"encoding/json"
+	"io"
 	"math/big"
 	"sync"
 	"testing"
+	"time"
 
 	"github.com/ethereum/go-ethereum/crypto"
 	libp2pcrypto "github.com/libp2p/go-libp2p/core/crypto"
@@ -56,6 +58,87 @@ func c18Admit(hs *handshake.Service, own *ecdsa.PrivateKey, priv *ecdsa.PrivateK
 		return ""
 	}
 	return hx(p.EthAddress.Bytes())
+}
+
+// an in-memory duplex stream between two handshake services
+type c18PipeEnd struct {
+	r *io.PipeReader
+	w *io.PipeWriter
+}
+
+func (e *c18PipeEnd) Read(p []byte) (int, error)  { return e.r.Read(p) }
+func (e *c18PipeEnd) Write(p []byte) (int, error) { return e.w.Write(p) }
+func (e *c18PipeEnd) Close() error                { e.w.Close(); return nil }
+func (e *c18PipeEnd) Reset() error                { e.w.CloseWithError(io.ErrClosedPipe); e.r.CloseWithError(io.ErrClosedPipe); return nil }
+
+func c18Pipe() (*c18PipeEnd, *c18PipeEnd) {
+	r1, w1 := io.Pipe()
+	r2, w2 := io.Pipe()
+	return &c18PipeEnd{r1, w2}, &c18PipeEnd{r2, w1}
+}
+
+// c18TwoServices: two honest nodes — each a real handshake service built the way libp2p.New builds
+// it, with its own key and its own configured secret — handshake with each other.  Returns the
+// address each side admitted the other with ("" when it refused).
+func c18TwoServices(kA, kB *ecdsa.PrivateKey, secretA, secretB string, roleA, roleB p2p.PeerType) (aSeenByB, bSeenByA string) {
+	mkID := func(k *ecdsa.PrivateKey) peer.ID {
+		lk, _ := libp2pcrypto.UnmarshalSecp256k1PrivateKey(util.PadKeyTo32Bytes(k.D))
+		id, _ := peer.IDFromPrivateKey(lk)
+		return id
+	}
+	mk := func(k *ecdsa.PrivateKey, secret string, role p2p.PeerType) *handshake.Service {
+		hs, err := handshake.New(mockkeysigner.NewMockKeySigner(k, crypto.PubkeyToAddress(k.PublicKey)), role, secret, signer.New(),
+			&c04Reg{answer: true}, GetEthAddressFromPeerID)
+		if err != nil {
+			return nil
+		}
+		return hs
+	}
+	hsA, hsB := mk(kA, secretA, roleA), mk(kB, secretB, roleB)
+	if hsA == nil || hsB == nil {
+		return "", ""
+	}
+	ea, eb := c18Pipe()
+	ctx, cancel := context.WithTimeout(context.Background(), 3*time.Second)
+	defer cancel()
+	type res struct {
+		p   *p2p.Peer
+		err error
+	}
+	rb := make(chan res, 1)
+	go func() {
+		defer func() {
+			if r := recover(); r != nil {
+				rb <- res{nil, io.ErrUnexpectedEOF}
+			}
+		}()
+		p, err := hsB.Handle(ctx, newStream(eb, nil, nil), mkID(kA))
+		if err != nil {
+			eb.Reset()
+		}
+		rb <- res{p, err}
+	}()
+	var pa *p2p.Peer
+	var errA error
+	func() {
+		defer func() {
+			if r := recover(); r != nil {
+				errA = io.ErrUnexpectedEOF
+			}
+		}()
+		pa, errA = hsA.Handshake(ctx, mkID(kB), newStream(ea, nil, nil))
+	}()
+	if errA != nil {
+		ea.Reset()
+	}
+	b := <-rb
+	if b.err == nil && b.p != nil {
+		aSeenByB = hex.EncodeToString(b.p.EthAddress.Bytes())
+	}
+	if errA == nil && pa != nil {
+		bSeenByA = hex.EncodeToString(pa.EthAddress.Bytes())
+	}
+	return
 }
 
 func c18Key(d *big.Int) *ecdsa.PrivateKey {
@@ -227,6 +310,20 @@ func TestVerifC18(t *testing.T) {
 	}
 	for _, d := range ds {
 		judge("honest-handshake", d, c18Admit(hs, ownKey, c18Key(d)))
+	}
+	// two honest nodes with their own secrets (plain, with blanks or a newline around them, empty,
+	// different from each other), in both directions and role pairs
+	secrets := []string{"test", "hello\n", " padded ", "\tkey", "", "two words", "ends with blank "}
+	for i, d := range ds {
+		if i >= vcount(14, 60) {
+			break
+		}
+		kA, kB := c18Key(d), c18Key(ds[(i+3)%len(ds)])
+		sA, sB := secrets[i%len(secrets)], secrets[(i/2)%len(secrets)]
+		rolesAB := [][2]p2p.PeerType{{p2p.PeerTypeBidder, p2p.PeerTypeProvider}, {p2p.PeerTypeProvider, p2p.PeerTypeBidder}, {p2p.PeerTypeProvider, p2p.PeerTypeBootnode}}[i%3]
+		a, b := c18TwoServices(kA, kB, sA, sB, rolesAB[0], rolesAB[1])
+		judge("honest-two-services-initiator", d, a)
+		judge("honest-two-services-responder", ds[(i+3)%len(ds)], b)
 	}
 	keys := make([]*ecdsa.PrivateKey, len(ds))
 	for i, d := range ds {
